@@ -97,11 +97,54 @@ let udp_parse_op kv =
      else "")
     (show_o udp_show (udp_parse sok v4 (getbool kv "rx") bs))
 
+(* ---------------- IPv4 ---------------- *)
+let ipv4_show r = Printf.sprintf "Ok src=%s dst=%s proto=%s plen=%s hop=%s"
+  (hex_of_bytes r.ipv4_src) (hex_of_bytes r.ipv4_dst) (sz r.ipv4_proto) (sz r.ipv4_payload_len) (sz r.ipv4_hop_limit)
+let ipv4_emit_op kv =
+  let r = { ipv4_src = getb kv "src"; ipv4_dst = getb kv "dst"; ipv4_proto = geti kv "proto";
+            ipv4_payload_len = geti kv "plen"; ipv4_hop_limit = geti kv "hop" } in
+  let res = ipv4_emit wb_plain_fill (getbool kv "tx") r (getb kv "buf") in
+  Printf.sprintf "ret %s | %s" (ob res)
+    (match res with Ok bs -> show_o ipv4_show (ipv4_parse wb_plain_ok (getbool kv "rx") bs) | _ -> "-")
+let ipv4_parse_op kv =
+  let bs = getb kv "bytes" in
+  let c = ipv4_check_len bs in
+  Printf.sprintf "chk %s%s parse %s" (chk c)
+    (if is_ok c then Printf.sprintf " acc ver=%s hlen=%s dscp=%s ecn=%s tlen=%s id=%s df=%s mf=%s off=%s hop=%s proto=%s ck=%s src=%s dst=%s payload=%s vck=%s"
+       (oz (ipv4_version bs)) (oz (ipv4_header_len bs)) (oz (ipv4_dscp bs)) (oz (ipv4_ecn bs))
+       (oz (ipv4_total_len bs)) (oz (ipv4_ident bs)) (obool (ipv4_dont_frag bs)) (obool (ipv4_more_frags bs))
+       (oz (ipv4_frag_offset bs)) (oz (ipv4_hop_limit_ bs)) (oz (ipv4_next_header bs)) (oz (ipv4_checksum bs))
+       (ob (ipv4_src_addr bs)) (ob (ipv4_dst_addr bs)) (ob (ipv4_payload bs)) (obool (ipv4_verify_checksum wb_plain_ok bs))
+     else "")
+    (show_o ipv4_show (ipv4_parse wb_plain_ok (getbool kv "rx") bs))
+
+(* ---------------- IPv6 ---------------- *)
+let ipv6_show r = Printf.sprintf "Ok src=%s dst=%s nxt=%s plen=%s hop=%s"
+  (hex_of_bytes r.ipv6_src) (hex_of_bytes r.ipv6_dst) (sz r.ipv6_nxt) (sz r.ipv6_payload_len) (sz r.ipv6_hop_limit)
+let ipv6_emit_op kv =
+  let r = { ipv6_src = getb kv "src"; ipv6_dst = getb kv "dst"; ipv6_nxt = geti kv "nxt";
+            ipv6_payload_len = geti kv "plen"; ipv6_hop_limit = geti kv "hop" } in
+  let res = ipv6_emit r (getb kv "buf") in
+  Printf.sprintf "ret %s | %s" (ob res)
+    (match res with Ok bs -> show_o ipv6_show (ipv6_parse bs) | _ -> "-")
+let ipv6_parse_op kv =
+  let bs = getb kv "bytes" in
+  let c = ipv6_check_len bs in
+  Printf.sprintf "chk %s%s parse %s" (chk c)
+    (if is_ok c then Printf.sprintf " acc ver=%s tc=%s flow=%s plen=%s tlen=%s nxt=%s hop=%s src=%s dst=%s payload=%s"
+       (oz (ipv6_version bs)) (oz (ipv6_traffic_class bs)) (oz (ipv6_flow_label bs)) (oz (ipv6_payload_len_ bs))
+       (oz (ipv6_total_len bs)) (oz (ipv6_next_header bs)) (oz (ipv6_hop_limit_ bs))
+       (ob (ipv6_src_addr bs)) (ob (ipv6_dst_addr bs)) (ob (ipv6_payload bs))
+     else "")
+    (show_o ipv6_show (ipv6_parse bs))
+
 (* ---------------- dispatch ---------------- *)
 let dispatch : (string * ((string * string) list -> string) * ((string * string) list -> string)) list = [
   ("eth", eth_emit_op, eth_parse_op);
   ("arp", arp_emit_op, arp_parse_op);
   ("udp", udp_emit_op, udp_parse_op);
+  ("ipv4", ipv4_emit_op, ipv4_parse_op);
+  ("ipv6", ipv6_emit_op, ipv6_parse_op);
 ]
 
 let () =
